@@ -10,9 +10,126 @@ import (
 	"strings"
 	"time"
 
+	"path/filepath"
+	"runtime"
+	"sort"
+
 	"lincheck/internal/eng"
 	"lincheck/internal/props"
 )
+
+// variant is a source edit evaluated in memory (packages overlay) to test the checker itself:
+// a breaking variant must be reported by the property's rules, an equivalent one must stay silent.
+type variant struct {
+	Name   string
+	Patch  string
+	Expect string // fire | silent
+}
+
+func variantsFor(root, prop string) []variant {
+	var out []variant
+	metas, _ := filepath.Glob(filepath.Join(root, "seeded", "*", "meta.json"))
+	sort.Strings(metas)
+	for _, m := range metas {
+		b, err := os.ReadFile(m)
+		if err != nil {
+			continue
+		}
+		var meta struct {
+			CaughtBy []string `json:"caught_by"`
+		}
+		if json.Unmarshal(b, &meta) != nil {
+			continue
+		}
+		for _, p := range meta.CaughtBy {
+			if p == prop {
+				out = append(out, variant{Name: "seeded/" + filepath.Base(filepath.Dir(m)), Patch: filepath.Join(filepath.Dir(m), "patch.diff"), Expect: "fire"})
+			}
+		}
+	}
+	eq, _ := filepath.Glob(filepath.Join(root, "variants", prop, "*.diff"))
+	sort.Strings(eq)
+	for _, e := range eq {
+		exp := "silent"
+		if strings.HasPrefix(filepath.Base(e), "break-") {
+			exp = "fire"
+		}
+		out = append(out, variant{Name: "variants/" + prop + "/" + filepath.Base(e), Patch: e, Expect: exp})
+	}
+	return out
+}
+
+// runVariants evaluates the property on each variant and appends one obligation per variant to c.
+func runVariants(pr eng.Property, c *eng.Ctx, repo, root string, known []eng.KnownFinding) map[string]interface{} {
+	vs := variantsFor(root, pr.ID)
+	var rows []map[string]interface{}
+	fired, breaking, silent, equiv, stale := 0, 0, 0, 0, 0
+	for _, v := range vs {
+		row := map[string]interface{}{"variant": v.Name, "expect": v.Expect}
+		ov, err := eng.OverlayFromPatch(repo, v.Patch)
+		if err != nil {
+			stale++
+			row["result"] = "stale-variant: " + err.Error()
+			rows = append(rows, row)
+			continue
+		}
+		p, err := eng.Load(eng.LoadOptions{Dir: repo, Overlay: ov})
+		if err != nil {
+			stale++
+			row["result"] = "variant does not type-check: " + err.Error()
+			rows = append(rows, row)
+			continue
+		}
+		p.Config = "variant:" + v.Name
+		vc := eng.RunProperty(pr, []*eng.Prog{p}, "quick", known, nil)
+		var keys []string
+		knownKeys := map[string]bool{}
+		for _, k := range known {
+			if k.Status == "known" && k.Property == pr.ID {
+				knownKeys[k.Key] = true
+			}
+		}
+		for _, o := range vc.Obls {
+			if (o.Status == "violated" || o.Status == "undecided") && !knownKeys[o.Key] {
+				keys = append(keys, o.Key)
+			}
+		}
+		row["reported"] = keys
+		ok := false
+		if v.Expect == "fire" {
+			breaking++
+			if len(keys) > 0 {
+				fired++
+				ok = true
+			}
+		} else {
+			equiv++
+			if len(keys) == 0 {
+				silent++
+				ok = true
+			}
+		}
+		row["result"] = map[bool]string{true: "as expected", false: "UNEXPECTED"}[ok]
+		rows = append(rows, row)
+		want := "a change known to break the property is reported by this property's rules (checker sensitivity)"
+		detail := "the breaking variant produced no violation"
+		if v.Expect == "silent" {
+			want = "a behaviour-preserving rewrite is not reported (checker specificity)"
+			detail = "the equivalent variant was reported: " + strings.Join(keys, ", ")
+		}
+		ob := eng.Obligation{Key: pr.ID + "/VARIANT/" + v.Name, Rule: "VARIANT", Want: want, Status: "discharged", Config: "overlay"}
+		if !ok {
+			ob.Status = "violated"
+			ob.Detail = detail
+		}
+		c.Obls = append(c.Obls, ob)
+		p = nil
+		vc = nil
+		eng.ResetCaches()
+		runtime.GC()
+	}
+	return map[string]interface{}{"variants": rows, "variants_fired": fired, "total_breaking": breaking, "variants_silent": silent, "total_equiv": equiv, "stale_variants": stale}
+}
 
 func main() {
 	repo := flag.String("repo", "/repo", "repository root")
@@ -93,10 +210,17 @@ func run(todo []eng.Property, repo, out, tier, knownPath string, list bool) int 
 			extra = props.Thorough(pr.ID)
 		}
 		c := eng.RunProperty(pr, progs, tier, known, extra)
+		var vstats map[string]interface{}
+		if tier == "thorough" {
+			vstats = runVariants(pr, c, repo, filepath.Dir(knownPath), known)
+		}
 		stats := map[string]interface{}{
 			"packages":         len(progs[0].Pkgs),
 			"module_functions": progs[0].NumFuncs,
 			"load_s":           loadS,
+		}
+		for k, v := range vstats {
+			stats[k] = v
 		}
 		if list {
 			b, _ := json.MarshalIndent(c.Obls, "", " ")
